@@ -53,7 +53,7 @@ func init() {
 			if tier == "thorough" {
 				cov["grid_points"] = len(c08Grid())
 				cov["replicas_per_grid_point"] = c08Replicas
-				cov["grid"] = "B∈{1,2,3,5,8}: R∈[0,3B+1] × s∈[0,R+2] × n∈{0,1,2,B-1,B,B+1,R,R+1}; B=32: R,s thinned to multiples of B ±1 and the ends; × 15 families × 2 drain modes"
+				cov["grid"] = "B∈{1,2,3,5,8}: R∈[0,3B+1] × s∈[0,R+2] × n∈{0,1,2,B-1,B,B+1,R,R+1}; B=32: R,s thinned to multiples of B ±1 and the ends; × 16 families × 2 drain modes (one index in 7001 is a big case instead)"
 			}
 			return ""
 		},
@@ -63,7 +63,7 @@ func init() {
 // thorough: every grid point is executed with this many differently seeded stores/configs
 const c08Replicas = 16
 
-var c08Families = []string{"plain", "plain-filtered", "ordered", "ordered-ties", "aggregate", "aggregate-ordered", "delete", "delete-filtered", "aggregate-all", "ordered-2keys", "mget", "plain-sparse", "delete-sparse", "ordered-sparse", "alias-filtered"}
+var c08Families = []string{"plain", "plain-filtered", "ordered", "ordered-ties", "aggregate", "aggregate-ordered", "delete", "delete-filtered", "aggregate-all", "ordered-2keys", "mget", "plain-sparse", "delete-sparse", "ordered-sparse", "alias-filtered", "delete-mget"}
 
 type gridPt struct {
 	fam  int
@@ -205,7 +205,7 @@ func c08Build(r *Rng, p gridPt) *Scenario {
 		}
 		lc.Base = "select key, int(value) as n where key ^= 'k' order by n " + pick(r, []string{"asc", "desc"}) + ", key " + pick(r, []string{"asc", "desc"})
 		lc.OrderCols = []int{1, 0}
-	case "mget":
+	case "mget", "delete-mget":
 		var ks []string
 		for i := 0; i < p.r; i++ {
 			k := fmt.Sprintf("k%03d", i)
@@ -219,7 +219,15 @@ func c08Build(r *Rng, p gridPt) *Scenario {
 			ks = []string{"nokey"}
 		}
 		shuffle(r, ks)
-		lc.Base = "select key, value where key in " + inList(ks)
+		if fam == "delete-mget" {
+			// a literal key set with a LIMIT: the window counts the rows that exist, in key order
+			lc.Base = "key in " + inList(ks)
+			if r.Chance(0.3) {
+				lc.Base += " & value != 'skip'"
+			}
+		} else {
+			lc.Base = "select key, value where key in " + inList(ks)
+		}
 	case "plain-sparse", "delete-sparse", "ordered-sparse":
 		// few matching rows among many scanned ones: child batches are short and
 		// whole storage chunks contain no match at all
